@@ -11,12 +11,18 @@ package main
 
 import (
 	"bytes"
+	"crypto/hmac"
+	"crypto/sha256"
 	"fmt"
 	"io"
 	"net"
 	"sort"
+	"strconv"
 	"testing"
 	"time"
+
+	"github.com/refraction-networking/obfs4/common/ntor"
+	"golang.org/x/crypto/curve25519"
 
 	"github.com/refraction-networking/conjure/pkg/core"
 	cj "github.com/refraction-networking/conjure/pkg/station/lib"
@@ -36,6 +42,7 @@ type c04Case struct {
 	Cuts    []int      `json:"cuts"`    // segment boundaries (offsets into flight+early data), ascending
 	Pauses  []int64    `json:"pauses"`  // virtual pause before each segment (ms), optional
 	DataKey int        `json:"datakey"` // selects the payload pattern
+	Key     int        `json:"key,omitempty"` // which of the station's keys the client was built with (prefix tags are encrypted to it)
 }
 
 type c04Result struct {
@@ -46,6 +53,7 @@ type c04Result struct {
 }
 
 func c04Run(e *aEnv, c c04Case, waitLimit time.Duration) (res c04Result) {
+	cls := map[string]bool{}
 	cj.VerifResetRegistry(e.rm)
 	e.ClearAnns()
 	c.Reg.Phantom = 0
@@ -68,9 +76,12 @@ func c04Run(e *aEnv, c c04Case, waitLimit time.Duration) (res c04Result) {
 	e.rm.AddRegistration(reg)
 	e.ClearAnns()
 
-	writes, err := e.aFlight(aSecret(c.Reg.Secret), aTT[c.Reg.TT], c.Reg.PrefixID, c.Flush)
+	writes, err := e.aFlightKey(aSecret(c.Reg.Secret), aTT[c.Reg.TT], c.Reg.PrefixID, c.Flush, c.Key)
 	if err != nil {
 		return c04Result{key: "harness", msg: fmt.Sprintf("flight: %v", err)}
+	}
+	if c.Key == 1 && c.Reg.TT == 1 {
+		cls["second-station-key"] = true
 	}
 	flight := aJoin(writes)
 	app := aPayload(c.DataKey, c.Early, "up")
@@ -84,7 +95,6 @@ func c04Run(e *aEnv, c c04Case, waitLimit time.Duration) (res c04Result) {
 	if c.Reg.TT == 0 {
 		tagStart = 0
 	}
-	cls := map[string]bool{}
 	for i, cut := range append(append([]int(nil), c.Cuts...), len(stream)) {
 		if cut <= prev || cut > len(stream) {
 			continue
@@ -290,7 +300,7 @@ func c04Env(t *testing.T) *aEnv {
 func TestVerif_C04_cuts(t *testing.T) {
 	rec := vh.NewRec("C04", "cuts", "for min and every prefix id x flush policy: every 1-cut (quick) and every 2-cut (thorough) segmentation of [first flight + 24 early application bytes], covert replies 16 bytes; one other registration present; non-trivial = a cut strictly inside the tag / between prefix and tag / inside the early data; distinct by (variant, cuts)")
 	defer rec.Flush()
-	rec.Require("cut-inside-tag", "cut-between-prefix-and-tag", "cut-inside-early-data", "cut-inside-prefix", "transport:Min", "transport:Prefix")
+	rec.Require("cut-inside-tag", "cut-between-prefix-and-tag", "cut-inside-early-data", "cut-inside-prefix", "transport:Min", "transport:Prefix", "second-station-key")
 	defer aSilenceStdout()()
 	e := c04Env(t)
 	if p := vh.ReplayFile(); p != "" {
@@ -310,7 +320,7 @@ func TestVerif_C04_cuts(t *testing.T) {
 			t.Fatalf("harness problem: %v", err)
 		}
 		total := len(aJoin(w)) + early
-		base := c04Case{Reg: aRegSpec{Secret: 1, TT: v.tt, PrefixID: v.pid}, Flush: v.flush, Early: early, Reply: 16, DataKey: vi,
+		base := c04Case{Reg: aRegSpec{Secret: 1, TT: v.tt, PrefixID: v.pid}, Flush: v.flush, Early: early, Reply: 16, DataKey: vi, Key: vi % 2,
 			Others: []aRegSpec{{Secret: 2, TT: (v.tt + 1) % 2, PrefixID: 1, Phantom: 0}}}
 		for a := 1; a < total; a++ {
 			idx++
@@ -340,6 +350,7 @@ func c04Gen(rt *rapid.T) c04Case {
 	c.Early = rapid.SampledFrom([]int{0, 0, 1, 7, 64, 300, 4095, 4096, 4097, 9000, 32768, 32769, 65536}).Draw(rt, "early")
 	c.Reply = rapid.SampledFrom([]int{0, 1, 16, 5000, 40000}).Draw(rt, "reply")
 	c.DataKey = rapid.IntRange(0, 1000).Draw(rt, "datakey")
+	c.Key = rapid.IntRange(0, 1).Draw(rt, "stationkey")
 	no := rapid.IntRange(0, 4).Draw(rt, "nothers")
 	for i := 0; i < no; i++ {
 		o := aRegSpec{Secret: 10 + rapid.IntRange(0, 5).Draw(rt, "osecret"), TT: rapid.IntRange(0, 2).Draw(rt, "ott"), Phantom: rapid.SampledFrom([]int{0, 0, 1}).Draw(rt, "ophantom"), V6: c.Reg.V6}
@@ -627,4 +638,144 @@ func TestVerif_C04_obfs4(t *testing.T) {
 		}
 		run(rt, c)
 	})
+}
+
+// obfs4 handshakes of every padding length at the boundaries. The real client draws its padding at
+// random (the longest handshakes are rare: about 0.4 % of dials are within 32 bytes of the maximum),
+// so the client handshake is built here from the published format X | P_C | M_C | MAC(X|P_C|M_C|E)
+// with the ntor primitives of the obfs4 library; the station must recognise it (it answers with
+// its server handshake and dials the covert).
+type c04PadCase struct {
+	Secret int `json:"secret"`
+	Pad    int `json:"pad"`
+	Cut    int `json:"cut"` // 0 = one segment; otherwise the handshake is delivered in two segments cut here (counted from the end if negative)
+}
+
+func c04Obfs4Keys(secret []byte) (pub [32]byte, nodeID [20]byte, err error) {
+	keys, err := core.GenSharedKeys(uint(core.CurrentClientLibraryVersion()), secret, pb.TransportType_Obfs4)
+	if err != nil {
+		return
+	}
+	var priv [32]byte
+	if _, err = io.ReadFull(keys.TransportReader, priv[:]); err != nil {
+		return
+	}
+	priv[0] &= 248
+	priv[31] &= 127
+	priv[31] |= 64
+	p, err := curve25519.X25519(priv[:], curve25519.Basepoint)
+	if err != nil {
+		return
+	}
+	copy(pub[:], p)
+	_, err = io.ReadFull(keys.TransportReader, nodeID[:])
+	return
+}
+
+func c04CraftHandshake(pub [32]byte, nodeID [20]byte, padLen int, padKey int) ([]byte, error) {
+	kp, err := ntor.NewKeypair(true)
+	if err != nil {
+		return nil, err
+	}
+	mac := hmac.New(sha256.New, append(append([]byte(nil), pub[:]...), nodeID[:]...))
+	repr := kp.Representative().Bytes()[:]
+	mac.Write(repr)
+	mark := mac.Sum(nil)[:16]
+	var buf bytes.Buffer
+	buf.Write(repr)
+	buf.Write(aPayload(padKey, padLen, "obfs4pad"))
+	buf.Write(mark)
+	mac.Reset()
+	mac.Write(buf.Bytes())
+	mac.Write([]byte(strconv.FormatInt(time.Now().Unix()/3600, 10)))
+	buf.Write(mac.Sum(nil)[:16])
+	return buf.Bytes(), nil
+}
+
+func TestVerif_C04_obfs4pad(t *testing.T) {
+	rec := vh.NewRec("C04", "obfs4pad", "obfs4 client handshakes built from the published format for every padding length at the boundaries (minimum, minimum+1, the last 40 lengths up to the maximum, a few in between), delivered in one segment or cut near the end; oracle: the station answers with its server handshake (>= 96 bytes written) and dials the covert exactly once; non-trivial = padding within 64 bytes of a boundary; distinct by case")
+	defer rec.Flush()
+	rec.Require("pad:max", "pad:min")
+	defer aSilenceStdout()()
+	e := c04Env(t)
+	run := func(tt vh.Fataler, c c04PadCase) {
+		cj.VerifResetRegistry(e.rm)
+		e.ClearAnns()
+		spec := aRegSpec{Secret: c.Secret, TT: 2, Phantom: 0, Covert: e.cov.Addr()}
+		reg, err := e.aMakeReg(spec)
+		if err != nil {
+			tt.Fatalf("harness problem: %v", err)
+		}
+		e.rm.AddRegistration(reg)
+		pub, nodeID, err := c04Obfs4Keys(aSecret(c.Secret))
+		if err != nil {
+			tt.Fatalf("harness problem: %v", err)
+		}
+		hs, err := c04CraftHandshake(pub, nodeID, c.Pad, c.Secret*100000+c.Pad)
+		if err != nil {
+			tt.Fatalf("harness problem: %v", err)
+		}
+		steps := []vconn.Step{{Data: vh.Hex(hs)}}
+		if c.Cut != 0 {
+			k := c.Cut
+			if k < 0 {
+				k = len(hs) + k
+			}
+			if k > 0 && k < len(hs) {
+				steps = []vconn.Step{{Data: vh.Hex(hs[:k])}, {Data: vh.Hex(hs[k:])}}
+			}
+		}
+		conn := vconn.New(vconn.Script{Reads: steps, End: "hold", Remote: "203.0.113.77:5555"})
+		e.cov.Arm(1<<30, nil)
+		ok, pan, _ := e.aRunHandler(conn, aPhantom(0, false), 40*time.Second)
+		classes := []string{}
+		near := false
+		switch {
+		case c.Pad == obfs4.ClientMaxPadLength:
+			classes = append(classes, "pad:max")
+		case c.Pad == obfs4.ClientMinPadLength:
+			classes = append(classes, "pad:min")
+		}
+		if c.Pad >= obfs4.ClientMaxPadLength-64 || c.Pad <= obfs4.ClientMinPadLength+64 {
+			near = true
+		}
+		rec.Case(near, vh.Digest(c), c, classes...)
+		if pan != nil {
+			rec.Violation(tt, "panic", c, "handler panicked: %v", pan)
+			return
+		}
+		if !ok {
+			tt.Fatalf("harness problem: handler did not return within 40 s")
+		}
+		if !e.cov.Sync(20 * time.Second) {
+			tt.Fatalf("harness problem: covert listener did not accept the marker connection")
+		}
+		_, written, _, _ := conn.Snapshot()
+		sess := e.cov.Sessions()
+		if len(written) < 96 || len(sess) != 1 {
+			rec.Violation(tt, "not-recognised", c, "valid obfs4 handshake with %d bytes of padding (%d bytes in total) was not recognised: station wrote %d bytes, covert dialled %d times", c.Pad, len(hs), len(written), len(sess))
+		}
+	}
+	if p := vh.ReplayFile(); p != "" {
+		var c c04PadCase
+		if _, _, err := vh.LoadReplay(p, &c); err != nil {
+			t.Fatal(err)
+		}
+		run(t, c)
+		return
+	}
+	var pads []int
+	pads = append(pads, obfs4.ClientMinPadLength, obfs4.ClientMinPadLength+1, 500, 4000, 4011, 4012, 4013, 8000)
+	for p := obfs4.ClientMaxPadLength - 40; p <= obfs4.ClientMaxPadLength; p++ {
+		pads = append(pads, p)
+	}
+	i := 0
+	for _, p := range pads {
+		for _, cut := range []int{0, -1, -32, 4096} {
+			i++
+			if vh.Mine(i) {
+				run(t, c04PadCase{Secret: i % 6, Pad: p, Cut: cut})
+			}
+		}
+	}
 }
